@@ -344,7 +344,7 @@ def guarded_values(ff, flow, defs):
         else:
             out.append((conds, v))
     for d in defs:
-        base = [(txt(e), pol) for kind, e, pol in guards.path_conditions(ff.node, d.stmt) if kind == "if"] if d.stmt is not None else []
+        base = [(txt(e), pol) for kind, e, pol in guards.path_conditions(ff.node, d.stmt, skip_raise_guards=True) if kind == "if"] if d.stmt is not None else []
         split(base, d.value)
     return out
 
